@@ -145,14 +145,11 @@ class Sim:
             rotation.LAST.setdefault("clock_start", []).append(self.start_time)   # (decided in __init__, before this case's record was opened)
         logcfg.set_debug(False)
         monitors.CURRENT = self
-        # the monotonic clocks of the process follow the simulated loop clock while a scenario runs (on a stock loop loop.time() IS
-        # time.monotonic()): library code that measures with time.monotonic() / perf_counter() sees the same time pass as its timers do.
-        # The wall clock (time.time) is left alone: it is a different clock in reality too.
-        import time as _time
+        # the monotonic clocks of the process follow the simulated loop clock while a scenario runs (vf/simclock.py)
+        from vf import simclock as _simclock
 
-        self._old_clocks = (_time.monotonic, _time.perf_counter)
-        _time.monotonic = lambda: self.clock          # type: ignore[assignment]
-        _time.perf_counter = lambda: self.clock       # type: ignore[assignment]
+        _simclock.install()
+        _simclock.CURRENT = self
         self._old_impl_socket = impl.socket
         impl.socket = core.make_socket_shim(self.net)
         asyncio.set_event_loop(self.loop)
@@ -186,9 +183,9 @@ class Sim:
                 if t.done() and not t.cancelled():
                     t.exception()
         finally:
-            import time as _time
+            from vf import simclock as _simclock
 
-            _time.monotonic, _time.perf_counter = self._old_clocks
+            _simclock.CURRENT = None
             self.loop.sim_exit()
             impl.socket = self._old_impl_socket
             monitors.CURRENT = None
